@@ -432,6 +432,13 @@ def r_schema(ctx, model):
         "mode_gamma.order = 0.5": mutate(["elast", "settings", "mode_gamma", "order"], 0.5), "T_MIN = -0.5": mutate(["qha", "settings", "T_MIN"], -0.5),
         "volume_ratio = 0.999": mutate(["qha", "settings", "volume_ratio"], 0.999),
     }
+    # names that merely CONTAIN a documented name (an enum rewritten as a pattern that is searched, not matched in full, or whose anchors bind to one alternative only)
+    for field, names in ((["elast", "settings", "symmetry", "system"], ("triclinic", "monoclinic", "hexagonal", "trigonal6", "trigonal7", "orthorhombic", "tetragonal6", "tetragonal7", "cubic")),
+                         (["elast", "settings", "mode_gamma", "interpolator"], ("spline", "lsq_poly", "lagrange", "krogh", "pchip", "hermite", "akima"))):
+        for nm in names:
+            for bad in ("x" + nm, nm + "x", nm + "\n", " " + nm, nm + " ", nm.upper(), nm.capitalize(), nm + nm, nm[:-1], nm + "7"):
+                if bad not in names:
+                    rejects[f"{field[-1]} = {bad!r}"] = mutate(field, bad)
     accepted = [k for k, c in rejects.items() if not list(v.iter_errors(c))]
     ctx.check(not accepted, f"{len(rejects)} single-field invalid perturbations are rejected", w, expected="ValidationError for each",
               found=f"accepted: {accepted}" if accepted else "all rejected",
